@@ -164,21 +164,121 @@ impl LineReader {
             r.1 is Some ==> r.0 is Done && covers(old(self).lines, r.1->0.idx(), fileoffset as int),
     { unimplemented!() }
 }
+// ---- the sysline stores, by their views (the same views as in unit SST, which proves check_store / insert_sysline against them)
 #[verifier::external_body]
 pub struct RangeMapStub { _p: u8 }
 impl RangeMapStub {
+    pub uninterp spec fn view(&self) -> Map<FileOffset, FileOffset>;
     #[verifier::external_body]
-    pub fn contains_key(&self, k: &FileOffset) -> bool { unimplemented!() }
+    pub fn contains_key(&self, k: &FileOffset) -> (r: bool) ensures r == self@.contains_key(*k) { unimplemented!() }
 }
+#[verifier::external_body]
+pub struct SyslinesStub { _p: u8 }
+impl SyslinesStub { pub uninterp spec fn view(&self) -> Map<FileOffset, SyslineP>; }
 #[verifier::external_body]
 pub struct SyslinesLRUCache { _p: u8 }
 impl SyslinesLRUCache {
+    pub uninterp spec fn view(&self) -> Map<FileOffset, ResultS3SyslineFind>;
+    // assumed (the lru crate, as in units RBK / LNR / SST): put stores the pair and may evict others, never alters one
     #[verifier::external_body]
-    pub fn put(&mut self, k: FileOffset, v: ResultS3SyslineFind) { unimplemented!() }
+    pub fn put(&mut self, k: FileOffset, v: ResultS3SyslineFind)
+        ensures final(self)@.contains_key(k) && final(self)@[k] == v,
+            forall|j: FileOffset| #[trigger] final(self)@.contains_key(j) && j != k ==> old(self)@.contains_key(j) && final(self)@[j] == old(self)@[j],
+    { unimplemented!() }
+}
+/// the Sysline is a whole message of the file (what unit SST calls `genuine`)
+pub open spec fn genuine(l: Seq<LN>, s: Sysline) -> bool { is_message(l, s.v()) && s.refs_ok(l) }
+pub open spec fn s_beg(s: Sysline) -> int { s.lines@[0].beg() }
+pub open spec fn s_end(s: Sysline) -> int { s.lines@.last().end() }
+/// C02: `v` is an answer to "the message at offset fo" (what unit SST calls `answer_ok`): a whole message, the offset after it, and
+/// it is the message of the line at fo (or the next message when the line at fo and the lines up to it are undated)
+pub open spec fn answer_ok(l: Seq<LN>, fo: int, v: ResultS3SyslineFind) -> bool {
+    v is Found ==> {
+        &&& genuine(l, *v->Found_0.1)
+        &&& v->Found_0.0 as int == l[v->Found_0.1.v().last()].end + 1
+        &&& forall|k: int| covers(l, k, fo) ==> ({
+                let a = v->Found_0.1.v()[0];
+                (a <= k && forall|i: int| a < i <= k ==> !(#[trigger] l[i]).dated) || (a > k && forall|i: int| k <= i < a ==> !(#[trigger] l[i]).dated)
+            })
+    }
+}
+/// index facts of a message: line j of the message is model line v[0] + j, all inside the file
+pub proof fn lemma_msg_lines(l: Seq<LN>, filesz: int, s: Sysline)
+    requires lines_wf(l, filesz), genuine(l, s)
+    ensures
+        s.lines@.len() >= 1, 0 <= s.v()[0], s.v()[0] + s.lines@.len() <= l.len(),
+        s_beg(s) == l[s.v()[0]].beg, s_end(s) == l[s.v()[0] + s.lines@.len() - 1].end, s.v().last() == s.v()[0] + s.lines@.len() - 1,
+        0 <= s_beg(s) <= s_end(s) < filesz,
+{
+    let n = s.lines@.len() as int;
+    assert(s.v().len() == n);
+    assert(s.v()[0] == s.lines@[0].idx());
+    assert(s.v()[n - 1] == s.v()[0] + (n - 1));
+    assert(s.v()[n - 1] == s.lines@[n - 1].idx());
+    lemma_bounds(l, filesz, s.v()[0]);
+    lemma_bounds(l, filesz, s.v()[0] + n - 1);
+    if n > 1 { lemma_sorted(l, filesz, s.v()[0], s.v()[0] + n - 1); }
+}
+/// the model line covering a byte of a message is one of the message's lines
+pub proof fn lemma_msg_covers(l: Seq<LN>, filesz: int, s: Sysline, k: int, x: int)
+    requires lines_wf(l, filesz), genuine(l, s), covers(l, k, x), s_beg(s) <= x <= s_end(s)
+    ensures s.v()[0] <= k < s.v()[0] + s.lines@.len()
+{
+    lemma_msg_lines(l, filesz, s);
+    let a = s.v()[0]; let z = a + s.lines@.len() - 1;
+    lemma_cover_next(l, filesz, k, x, a);
+    lemma_cover_next(l, filesz, k, x, z);
+}
+/// two whole messages that share a byte are the same message (same extent)
+pub proof fn lemma_same_msg(l: Seq<LN>, filesz: int, s1: Sysline, s2: Sysline, x: int)
+    requires lines_wf(l, filesz), genuine(l, s1), genuine(l, s2), s_beg(s1) <= x <= s_end(s1), s_beg(s2) <= x <= s_end(s2)
+    ensures s_beg(s1) == s_beg(s2), s_end(s1) == s_end(s2), s1.v()[0] == s2.v()[0], s1.lines@.len() == s2.lines@.len()
+{
+    lemma_msg_lines(l, filesz, s1); lemma_msg_lines(l, filesz, s2);
+    lemma_bounds(l, filesz, 0);
+    // the line covering x
+    let k = choose|k: int| covers(l, k, x);
+    assert(exists|k: int| covers(l, k, x)) by {
+        // x lies inside message s1, whose lines cover every byte between its first and last byte
+        lemma_line_at(l, filesz, s1.v()[0], s1.v()[0] + s1.lines@.len() - 1, x);
+    }
+    lemma_msg_covers(l, filesz, s1, k, x); lemma_msg_covers(l, filesz, s2, k, x);
+    let a1 = s1.v()[0]; let a2 = s2.v()[0];
+    let n1 = s1.lines@.len() as int; let n2 = s2.lines@.len() as int;
+    if a1 < a2 { assert(s1.v()[a2 - a1] == a1 + (a2 - a1)); assert(!l[s1.v()[a2 - a1]].dated); }
+    if a2 < a1 { assert(s2.v()[a1 - a2] == a2 + (a1 - a2)); assert(!l[s2.v()[a1 - a2]].dated); }
+    if n1 < n2 { assert(s2.v()[n1] == a2 + n1); assert(!l[s2.v()[n1]].dated); }
+    if n2 < n1 { assert(s1.v()[n2] == a1 + n2); assert(!l[s1.v()[n2]].dated); }
+}
+/// every byte between the first byte of line i and the last byte of line j >= i lies in one of the lines i..=j
+pub proof fn lemma_line_at(l: Seq<LN>, filesz: int, i: int, j: int, x: int)
+    requires lines_wf(l, filesz), 0 <= i <= j < l.len(), l[i].beg <= x <= l[j].end
+    ensures exists|k: int| covers(l, k, x)
+    decreases j - i
+{
+    if x <= l[i].end { assert(covers(l, i, x)); }
+    else { assert(l[i + 1].beg == l[i].end + 1); lemma_line_at(l, filesz, i + 1, j, x); }
+}
+/// (assumed as an axiom in unit SST) the whole message that covers fo, with the offset after it, is an answer for fo
+pub proof fn lemma_covering_is_answer(l: Seq<LN>, filesz: int, fo: int, v: ResultS3SyslineFind)
+    requires lines_wf(l, filesz), v is Found, genuine(l, *v->Found_0.1), s_beg(*v->Found_0.1) <= fo <= s_end(*v->Found_0.1), v->Found_0.0 as int == s_end(*v->Found_0.1) + 1
+    ensures answer_ok(l, fo, v)
+{
+    let s = *v->Found_0.1;
+    lemma_msg_lines(l, filesz, s);
+    assert forall|k: int| covers(l, k, fo) implies ({
+        let a = s.v()[0];
+        (a <= k && forall|i: int| a < i <= k ==> !(#[trigger] l[i]).dated) || (a > k && forall|i: int| k <= i < a ==> !(#[trigger] l[i]).dated)
+    }) by {
+        lemma_msg_covers(l, filesz, s, k, fo);
+        let a = s.v()[0];
+        assert forall|i: int| a < i <= k implies !(#[trigger] l[i]).dated by { assert(s.v()[i - a] == a + (i - a)); assert(!l[s.v()[i - a]].dated); }
+    }
 }
 
 pub struct SyslineReader {
     pub linereader: LineReader,
+    pub syslines: SyslinesStub,
     pub syslines_by_range: RangeMapStub,
     pub find_sysline_lru_cache_enabled: bool,
     pub find_sysline_lru_cache_put: Count,
@@ -197,24 +297,47 @@ impl SyslineReader {
     pub fn filesz(&self) -> (r: u64) ensures r as int == self.fsz() { unimplemented!() }
     #[verifier::external_body]
     pub fn charsz(&self) -> (r: usize) ensures r == 1 { unimplemented!() }
+    /// the store invariant of unit SST, with `genuine` and `answer_ok` given their meaning over the file's lines
+    pub open spec fn store_wf(&self) -> bool {
+        &&& forall|k: FileOffset| #[trigger] self.syslines@.contains_key(k) ==> genuine(self.model(), *self.syslines@[k]) && s_beg(*self.syslines@[k]) == k
+                && self.syslines_by_range@.contains_key(k) && self.syslines_by_range@[k] == k
+        &&& forall|x: FileOffset| #[trigger] self.syslines_by_range@.contains_key(x) ==> self.syslines@.contains_key(self.syslines_by_range@[x])
+                && s_beg(*self.syslines@[self.syslines_by_range@[x]]) <= x as int <= s_end(*self.syslines@[self.syslines_by_range@[x]])
+        &&& forall|k: FileOffset| #[trigger] self.find_sysline_lru_cache@.contains_key(k) ==> answer_ok(self.model(), k as int, self.find_sysline_lru_cache@[k])
+    }
+    pub open spec fn store_same(&self, o: &Self) -> bool {
+        self.syslines == o.syslines && self.syslines_by_range == o.syslines_by_range && self.find_sysline_lru_cache == o.find_sysline_lru_cache
+    }
+    // ASSUMED here, PROVED in unit SST (same contract in SST's vocabulary): what the store serves is an answer for the offset
     #[verifier::external_body]
     pub fn check_store(&mut self, fileoffset: FileOffset) -> (r: Option<ResultS3SyslineFind>)
+        requires old(self).store_wf()
         ensures r is Some <==> old(self).stored(fileoffset), final(self).linereader == old(self).linereader,
+            final(self).store_wf(), final(self).syslines == old(self).syslines, final(self).syslines_by_range == old(self).syslines_by_range,
+            r is Some ==> answer_ok(old(self).model(), fileoffset as int, r.unwrap()),
+            r is None ==> !old(self).syslines_by_range@.contains_key(fileoffset),
     { unimplemented!() }
     #[verifier::external_body]
     pub fn parse_datetime_in_line_cached(&mut self, linep: &LineP, charsz: usize, year_opt: &Option<Year>) -> (r: ResultParseDateTime)
         requires 0 <= linep.idx() < old(self).model().len()
-        ensures r is Ok <==> old(self).model()[linep.idx()].dated, final(self).linereader == old(self).linereader,
+        ensures r is Ok <==> old(self).model()[linep.idx()].dated, final(self).linereader == old(self).linereader, final(self).store_same(old(self)),
             r is Ok ==> r->Ok_0.0 < r->Ok_0.1 && r->Ok_0.1 as int <= linep.end() - linep.beg() + 1,
     { unimplemented!() }
+    // ASSUMED here, PROVED in unit SST: recording a whole message keeps the store invariant, provided whatever the range map already
+    // knows inside the new message's extent (or under its first byte) belongs to a stored message with the same extent
     #[verifier::external_body]
     pub fn insert_sysline(&mut self, sysline: Sysline) -> (r: SyslineP)
-        ensures *r == sysline, final(self).linereader == old(self).linereader,
+        requires
+            old(self).store_wf(), genuine(old(self).model(), sysline), 0 <= s_beg(sysline) <= s_end(sysline) < u64::MAX - 1,
+            forall|x: FileOffset| #[trigger] old(self).syslines_by_range@.contains_key(x) && (s_beg(sysline) <= x as int <= s_end(sysline) || old(self).syslines_by_range@[x] as int == s_beg(sysline))
+                ==> s_beg(*old(self).syslines@[old(self).syslines_by_range@[x]]) == s_beg(sysline) && s_end(*old(self).syslines@[old(self).syslines_by_range@[x]]) == s_end(sysline),
+        ensures *r == sysline, final(self).linereader == old(self).linereader, final(self).store_wf(),
+            final(self).find_sysline_lru_cache == old(self).find_sysline_lru_cache,
     { unimplemented!() }
     pub fn debug_assert_gt_fo_syslineend(fo: &FileOffset, syslinep: &SyslineP) { }
     #[verifier::external_body]
     pub fn count_put(&mut self)
-        ensures final(self).linereader == old(self).linereader,
+        ensures final(self).linereader == old(self).linereader, final(self).store_same(old(self)),
     { unimplemented!() }
 
 //@cut fn path=src/readers/syslinereader.rs impl=SyslineReader name=find_sysline_year ret=r
@@ -222,9 +345,14 @@ impl SyslineReader {
 //@replace "self.find_sysline_lru_cache_put += 1;" "self.count_put();" count=2
 //@spec
     requires
-        lines_wf(old(self).model(), old(self).fsz()), old(self).fsz() < u64::MAX,
+        lines_wf(old(self).model(), old(self).fsz()), old(self).fsz() < u64::MAX - 1, old(self).store_wf(),
     ensures
         final(self).model() == old(self).model(), final(self).fsz() == old(self).fsz(),
+        // the stores stay right: every stored / cached Sysline is a whole message (unit SST's invariant)
+        final(self).store_wf(),
+        // C02: whatever is handed out -- found by the search or served from the stores -- is a whole message, the message of the line
+        // at `fileoffset` (or the next one when that line and the lines before it are undated), with the offset after it
+        answer_ok(old(self).model(), fileoffset as int, r),
         // C02: whatever the search did, what it hands out (when not served from the store) is a whole message: a dated line
         // and all the undated lines after it, and the offset returned with it is where the next message starts
         !old(self).stored(fileoffset) && r is Found ==> ({
@@ -252,8 +380,8 @@ impl SyslineReader {
                 hi > lo ==> fo1 <= fo_a_max && (lo > 0 ==> fo1 as int >= l[lo - 1].beg),
                 hi > lo ==> fo_a_max as int == l[hi - 1].end + 1,
             invariant
-                l == old(self).model(), filesz == old(self).fsz(),
-                self.model() == l, self.fsz() == filesz, lines_wf(l, filesz), filesz < u64::MAX, charsz_fo == 1,
+                l == old(self).model(), filesz == old(self).fsz(), self.store_wf(),
+                self.model() == l, self.fsz() == filesz, lines_wf(l, filesz), filesz < u64::MAX - 1, charsz_fo == 1,
                 0 <= lo <= hi <= l.len(),
                 forall|i: int| lo <= i < hi ==> !(#[trigger] l[i]).dated,
                 hi > lo ==> forall|k: int| covers(l, k, fileoffset as int) ==> lo <= k < hi,
@@ -297,8 +425,8 @@ impl SyslineReader {
             invariant_except_break
                 fo1 as int == sysline.lines@.last().end() + 1, fo_b == fo1,
             invariant
-                l == old(self).model(), filesz == old(self).fsz(),
-                self.model() == l, self.fsz() == filesz, lines_wf(l, filesz), filesz < u64::MAX,
+                l == old(self).model(), filesz == old(self).fsz(), self.store_wf(),
+                self.model() == l, self.fsz() == filesz, lines_wf(l, filesz), filesz < u64::MAX - 1,
                 sysline.lines@.len() >= 1, sysline.refs_ok(l),
                 0 <= a0 && a0 + sysline.lines@.len() <= l.len(), fileoffset < filesz,
                 l[a0].dated,
@@ -321,6 +449,20 @@ impl SyslineReader {
             }
 //@before "let mut fo_b: FileOffset = fo1;"
         let ghost a0 = sysline.lines@[0].idx();
+//@before "let syslinep: SyslineP = self.insert_sysline(sysline);"
+        proof {
+            assert(genuine(l, sysline));
+            lemma_msg_lines(l, filesz, sysline);
+            assert forall|x: FileOffset| #[trigger] self.syslines_by_range@.contains_key(x) && (s_beg(sysline) <= x as int <= s_end(sysline) || self.syslines_by_range@[x] as int == s_beg(sysline))
+                implies s_beg(*self.syslines@[self.syslines_by_range@[x]]) == s_beg(sysline) && s_end(*self.syslines@[self.syslines_by_range@[x]]) == s_end(sysline) by {
+                let o = *self.syslines@[self.syslines_by_range@[x]];
+                if s_beg(sysline) <= x as int <= s_end(sysline) { lemma_same_msg(l, filesz, o, sysline, x as int); }
+                else { lemma_msg_lines(l, filesz, o); lemma_same_msg(l, filesz, o, sysline, s_beg(sysline)); }
+            }
+        }
+//@after "let syslinep: SyslineP = self.insert_sysline(sysline);"
+        proof { assert(answer_ok(l, fileoffset as int, ResultS3SyslineFind::Found((fo_b, syslinep)))); }
+//@mutate ".put(fileoffset, ResultS3SyslineFind::Found((fo_b, syslinep.clone())));" ".put(fo_b, ResultS3SyslineFind::Found((fo_b, syslinep.clone())));"
 //@mutate "fo1 = fo2;" "fo1 = fo2 + 1;"
 //@mutate "fo1 = fo_a_max;" "fo1 = fo_a_max + 1;"
 //@end
@@ -336,9 +478,12 @@ impl SyslineReader {
 //@replace "self.find_sysline_lru_cache_put += 1;" "self.count_put();" count=2
 //@spec
     requires
-        lines_wf(old(self).model(), old(self).fsz()), 1 <= old(self).fsz() < u64::MAX,
+        lines_wf(old(self).model(), old(self).fsz()), 1 <= old(self).fsz() < u64::MAX - 1, old(self).store_wf(),
     ensures
         final(self).model() == old(self).model(), final(self).fsz() == old(self).fsz(),
+        final(self).store_wf(),
+        // C02: whatever is handed out -- found in the block or served from the stores -- is a whole message (see find_sysline_year)
+        answer_ok(old(self).model(), fileoffset as int, r.0),
         // C02 (block-zero analysis): what is stored and handed out is a whole message even when lines cross the block's end:
         // a message is only returned once the line after its last line was seen to be dated, or the file ends
         !old(self).stored(fileoffset) && r.0 is Found ==> ({
@@ -363,7 +508,7 @@ impl SyslineReader {
                 hi > lo ==> fo1 as int == l[hi - 1].end + 1,
             invariant
                 l == old(self).model(), filesz == old(self).fsz(),
-                self.model() == l, self.fsz() == filesz, lines_wf(l, filesz), 1 <= filesz < u64::MAX,
+                self.model() == l, self.fsz() == filesz, lines_wf(l, filesz), 1 <= filesz < u64::MAX - 1, self.store_wf(),
                 0 <= lo <= hi <= l.len(),
                 forall|i: int| lo <= i < hi ==> !(#[trigger] l[i]).dated,
                 hi > lo ==> forall|k: int| covers(l, k, fileoffset as int) ==> k == lo,
@@ -395,7 +540,7 @@ impl SyslineReader {
                 fo1 as int == sysline.lines@.last().end() + 1,
             invariant
                 l == old(self).model(), filesz == old(self).fsz(),
-                self.model() == l, self.fsz() == filesz, lines_wf(l, filesz), 1 <= filesz < u64::MAX,
+                self.model() == l, self.fsz() == filesz, lines_wf(l, filesz), 1 <= filesz < u64::MAX - 1, self.store_wf(),
                 sysline.lines@.len() >= 1, sysline.refs_ok(l),
                 0 <= b0 && b0 + sysline.lines@.len() <= l.len(),
                 l[b0].dated,
@@ -429,6 +574,21 @@ impl SyslineReader {
                 if last + 1 < l.len() { assert(l[last + 1].beg == l[last].end + 1); lemma_cover_next(l, filesz, c, fo1 as int, last + 1); }
                 assert(c == last + 1);
             }
+//@before "let syslinep: SyslineP = self.insert_sysline(sysline);" *
+        proof {
+            assert(genuine(l, sysline));
+            lemma_msg_lines(l, filesz, sysline);
+            assert forall|x: FileOffset| #[trigger] self.syslines_by_range@.contains_key(x) && (s_beg(sysline) <= x as int <= s_end(sysline) || self.syslines_by_range@[x] as int == s_beg(sysline))
+                implies s_beg(*self.syslines@[self.syslines_by_range@[x]]) == s_beg(sysline) && s_end(*self.syslines@[self.syslines_by_range@[x]]) == s_end(sysline) by {
+                let o = *self.syslines@[self.syslines_by_range@[x]];
+                if s_beg(sysline) <= x as int <= s_end(sysline) { lemma_same_msg(l, filesz, o, sysline, x as int); }
+                else { lemma_msg_lines(l, filesz, o); lemma_same_msg(l, filesz, o, sysline, s_beg(sysline)); }
+            }
+        }
+//@after "let syslinep: SyslineP = self.insert_sysline(sysline);" 1
+                        proof { assert(answer_ok(l, fileoffset as int, ResultS3SyslineFind::Found((fo1, syslinep)))); }
+//@after "let syslinep: SyslineP = self.insert_sysline(sysline);" 2
+        proof { assert(answer_ok(l, fileoffset as int, ResultS3SyslineFind::Found((fo_b, syslinep)))); }
 //@end
 }
 
